@@ -8,7 +8,11 @@ Inductive case :=
 (** the real Runner._finish driven through a scripted subclass *)
 | CScripted (s : situation) (o : outcome)
 (** Program.run in-process *)
-| CProgram (e : prog_event) (o : prog_out).
+| CProgram (e : prog_event) (o : prog_out)
+(** Local.returncode under a pty, handed the wait status [raw] the OS contract
+    gives ending [e] (with / without the core-dump flag) *)
+| CDecode (e : ending) (core : bool) (raw : Z) (d : decoded)
+with decoded := DCode (rc : option Z) | DBad.
 
 Definition rview_eqb (a b : rview) : bool :=
   optz_eqb (rv_exited a) (rv_exited b) && Bool.eqb (rv_ok a) (rv_ok b) &&
@@ -57,6 +61,9 @@ Definition corr (c : case) : bool :=
       end
   | CScripted s o => outcome_eqb (run_outcome s) o
   | CProgram e o => prog_out_eqb (program_run e) o
+  | CDecode e core raw d =>
+      (raw =? match e with Exited c => exit_status c | Killed s => sig_status s core end)%Z &&
+      match d with DCode rc => optz_eqb (pty_returncode raw) rc | DBad => false end
   end.
 
 Definition spec (c : case) : bool :=
@@ -64,4 +71,7 @@ Definition spec (c : case) : bool :=
   | CReal e pty warn raw o => spec_finish (mkSit 0 0 false false (true_status e) warn false false) o
   | CScripted s o => spec_finish s o
   | CProgram e o => spec_program e o
+  | CDecode e core raw d =>
+      (* the status reported is the true one, whether or not a core was dumped *)
+      match d with DCode rc => optz_eqb rc (Some (true_status e)) | DBad => false end
   end.
